@@ -28,6 +28,14 @@ func init() {
 		"go.readbits":  goReadBits,
 		"go.obtained":  goObtained,
 		"go.built":     goBuilt,
+		"cell.rehash":  execRehash,
+		"go.rehash": func(a []string) string { // the same scenario as a direct oracle: every entry point agrees at every h
+			if r := execRehash(a); strings.HasPrefix(r, "FAIL") {
+				return r
+			}
+			return "ok"
+		},
+		"go.accessors": goAccessors,
 		"go.builtdict": goBuiltDict,
 		"go.boc":       goBoc,
 		"go.nopanic":   goNoPanic,
@@ -277,6 +285,97 @@ func goCached(a []string) string {
 						return fmt.Sprintf("FAIL cached-hash-differs entry=HashString row=%d round=%d", i, round)
 					}
 				}
+			}
+		}
+	}
+	return "ok"
+}
+
+// cell.rehash <steps>: ONE cell built in memory and hashed BETWEEN writes. steps separated by '/':
+// w<bits> = WriteBit each, a<table> = AddRef(cell built from the table), h = hash now. At every h all entry points
+// (Hash, Hash256, HashString, a fresh Hasher) must agree; the answer lists the hash at every h: it must be the hash of
+// the CURRENT content (a hash remembered inside the cell from before a write would be stale).
+func execRehash(a []string) string {
+	c := boc.NewCell()
+	var out []string
+	for _, st := range strings.Split(a[0], "/") {
+		switch st[0] {
+		case 'w':
+			for _, ch := range st[1:] {
+				if err := c.WriteBit(ch == '1'); err != nil {
+					return "err"
+				}
+			}
+		case 'a':
+			if err := c.AddRef(h.BuildCells(h.ParseTable(st[1:]))[0]); err != nil {
+				return "err"
+			}
+		case 'h':
+			h1, e1 := c.Hash()
+			h2, e2 := c.Hash256()
+			h3, e3 := c.HashString()
+			h4, e4 := boc.NewHasher().Hash(c)
+			if e1 != nil || e2 != nil || e3 != nil || e4 != nil {
+				return "err"
+			}
+			if !bytes.Equal(h1, h2[:]) || h3 != hex.EncodeToString(h1) || !bytes.Equal(h1, h4) {
+				return fmt.Sprintf("FAIL hash-forms-disagree-after-writes Hash=%x Hash256=%x HashString=%s Hasher=%x", h1, h2[:], h3, h4)
+			}
+			out = append(out, h3)
+		}
+	}
+	return "ok " + strings.Join(out, " ")
+}
+
+// go.accessors <table>: the accessors of exotic cells return what the cells store: GetMerkleRoot of a Merkle-proof
+// cell and GetLibraryHash of a library cell = data bytes 1..32; tlb.MerkleProof / tlb.MerkleUpdate decode the stored
+// hashes and depths.
+func goAccessors(a []string) string {
+	t := h.ParseTable(a[0])
+	libChild := func(r h.Row) bool { // a library cell as virtual root needs a library resolver: the decoder refuses
+		for _, x := range r.Refs {
+			if t[x].Ty == 2 {
+				return true
+			}
+		}
+		return false
+	}
+	for i, r := range t {
+		cs := h.BuildCells(t)
+		c := cs[i]
+		switch r.Ty {
+		case 3:
+			got, err := c.GetMerkleRoot()
+			if err != nil || !bytes.Equal(got[:], r.Data[1:33]) {
+				return fmt.Sprintf("FAIL GetMerkleRoot-differs-from-stored-hash row=%d", i)
+			}
+			c.ResetCounters()
+			var mp tlb.MerkleProof[tlb.Any]
+			if err := tlb.Unmarshal(c, &mp); err != nil {
+				if libChild(r) {
+					continue
+				}
+				return fmt.Sprintf("FAIL tlb.MerkleProof-does-not-decode row=%d", i)
+			}
+			if !bytes.Equal(mp.VirtualHash[:], r.Data[1:33]) || int(mp.Depth) != int(r.Data[33])<<8|int(r.Data[34]) {
+				return fmt.Sprintf("FAIL tlb.MerkleProof-fields-differ-from-stored row=%d", i)
+			}
+		case 2:
+			got, err := c.GetLibraryHash()
+			if err != nil || !bytes.Equal(got[:], r.Data[1:33]) {
+				return fmt.Sprintf("FAIL GetLibraryHash-differs-from-stored-hash row=%d", i)
+			}
+		case 4:
+			var mu tlb.MerkleUpdate[tlb.Any]
+			if err := tlb.Unmarshal(c, &mu); err != nil {
+				if libChild(r) {
+					continue
+				}
+				return fmt.Sprintf("FAIL tlb.MerkleUpdate-does-not-decode row=%d", i)
+			}
+			if !bytes.Equal(mu.FromHash[:], r.Data[1:33]) || !bytes.Equal(mu.ToHash[:], r.Data[33:65]) ||
+				int(mu.FromDepth) != int(r.Data[65])<<8|int(r.Data[66]) || int(mu.ToDepth) != int(r.Data[67])<<8|int(r.Data[68]) {
+				return fmt.Sprintf("FAIL tlb.MerkleUpdate-fields-differ-from-stored row=%d", i)
 			}
 		}
 	}
@@ -920,6 +1019,48 @@ func genC02(g *h.G) {
 		g.Emit("cell.levels", ts)
 		g.Emit("cell.all", ts)
 		g.Emit("go.nopanic", ts)
+	}
+	// hash -> write -> hash on one cell built in memory; accessors of exotic cells
+	for i := 0; i < g.Scale(300, 6000); i++ {
+		var steps []string
+		bitsLeft, refs := 1023, 0
+		for k := 0; k < 2+i%5; k++ {
+			switch {
+			case k%3 == 2 && refs < 4:
+				ct := g.RandOrdinaryTable(h.DagOpts{MaxCells: g.Pick(1, 2, 4), MaxBits: 100})
+				steps = append(steps, "a"+h.TableString(ct))
+				refs++
+			default:
+				n := g.Pick(0, 1, 7, 8, 9, 31, 64, 200)
+				if n > bitsLeft {
+					n = bitsLeft
+				}
+				bitsLeft -= n
+				b := make([]byte, n)
+				for j := range b {
+					b[j] = '0' + byte(g.Rng.Intn(2))
+				}
+				steps = append(steps, "w"+string(b))
+			}
+			steps = append(steps, "h")
+			if k%2 == 1 {
+				steps = append(steps, "h") // twice in a row as well
+			}
+		}
+		g.Count("rehash_sequences")
+		g.NonTrivial("rehash:" + strings.Join(steps, "/"))
+		g.Emit("cell.rehash", strings.Join(steps, "/"))
+		g.Emit("go.rehash", strings.Join(steps, "/"))
+	}
+	for i := 0; i < g.Scale(300, 6000); i++ {
+		var t []h.Row
+		if i%3 == 0 {
+			t, _, _ = g.MerkleUpdateTable()
+		} else {
+			t = g.RandExoticTable(g.Pick(2, 4, 8, 16))
+		}
+		g.Count("accessors_tables")
+		g.Emit("go.accessors", h.TableString(t))
 	}
 	// NewCellWithBits(ReadBits n)
 	nrb := g.Scale(600, 30000)
